@@ -93,6 +93,8 @@ VARIABLES
     inp,      \* [op, mode, upd, norig, prior, intf] : the call and the world before it
     script,   \* [free, s, swarm] : free = the daemon chooses; else it follows s / swarm
     pins,     \* daemon pin table  [c1, c2 -> PinSt]
+    held,     \* depth of the recursive pin the daemon holds: "" none | "full" | "1" | "2"
+              \* (a pin/add with max-depth=d leaves a partial pin: not what a recursive request asks)
     pc,       \* connector control state
     net,      \* the one in-flight main request / response
     reqs,     \* requests the daemon received, in order, with what it did
@@ -104,23 +106,29 @@ VARIABLES
     lastProg, \* watchdog: highest progress seen
     age       \* watchdog: ticks since progress last increased
 
-vars == <<inp, abandoned, script, pins, pc, net, reqs, swarm, bg, result, status, lastProg, age>>
+vars == <<inp, abandoned, script, pins, held, pc, net, reqs, swarm, bg, result, status, lastProg, age>>
 
-Idle == [st |-> "idle", ep |-> "", cid |-> "", typ |-> "", rec |-> "", from |-> "",
+Idle == [st |-> "idle", ep |-> "", cid |-> "", typ |-> "", rec |-> "", from |-> "", depth |-> "", prog |-> "",
          kind |-> "", msg |-> "", msgs |-> <<>>, end |-> ""]
 Req(ep, cid, typ, rec, from) ==
     [Idle EXCEPT !.st = "req", !.ep = ep, !.cid = cid, !.typ = typ, !.rec = rec, !.from = from]
 Resp(kind, msg, msgs, end) ==
     [net EXCEPT !.st = "resp", !.kind = kind, !.msg = msg, !.msgs = msgs, !.end = end]
 
+\* the depth a recursive pin is held with; single calls start from full pins
+FullIf(p) == IF HasR(p) THEN "full" ELSE ""
+Rank(h) == CASE h = "1" -> 1 [] h = "2" -> 2 [] h = "full" -> 99 [] OTHER -> 0
+\* holding depth h serves a request for depth d ("" = all the way down)
+DepthOk(h, d) == h = "full" \/ (d # "" /\ Rank(h) >= Rank(d))
+
 Inputs(norigs, intfs) ==
-    {[op |-> "pin", mode |-> m, upd |-> u, norig |-> n, ohang |-> h, cancel |-> k,
-      prior |-> [c1 |-> p1, c2 |-> p2], intf |-> i] :
-        m \in Modes, u \in BOOLEAN, n \in norigs, h \in BOOLEAN, k \in BOOLEAN, p1 \in PinSt, p2 \in PinSt, i \in intfs}
+    {[op |-> "pin", mode |-> m, d |-> dd, upd |-> u, norig |-> n, ohang |-> h, cancel |-> k,
+      prior |-> [c1 |-> p1, c2 |-> p2], pheld |-> [c1 |-> FullIf(p1), c2 |-> FullIf(p2)], intf |-> i] :
+        m \in Modes, dd \in {"", "1", "2"}, u \in BOOLEAN, n \in norigs, h \in BOOLEAN, k \in BOOLEAN, p1 \in PinSt, p2 \in PinSt, i \in intfs}
     \cup
-    {[op |-> o, mode |-> m, upd |-> FALSE, norig |-> 0, ohang |-> FALSE, cancel |-> FALSE,
-      prior |-> [c1 |-> p1, c2 |-> "none"], intf |-> i] :
-        o \in {"unpin", "lscid"}, m \in Modes, p1 \in PinSt, i \in intfs}
+    {[op |-> o, mode |-> m, d |-> dd, upd |-> FALSE, norig |-> 0, ohang |-> FALSE, cancel |-> FALSE,
+      prior |-> [c1 |-> p1, c2 |-> "none"], pheld |-> [c1 |-> FullIf(p1), c2 |-> ""], intf |-> i] :
+        o \in {"unpin", "lscid"}, m \in Modes, dd \in {"", "1", "2"}, p1 \in PinSt, i \in intfs}
 
 \* the update source only matters when an update is asked; unpin has no mode;
 \* a look-up is never interfered with.  ohang: the daemon never answers the
@@ -131,13 +139,22 @@ Relevant(i) ==
     /\ i.op = "unpin" => i.mode = "recursive"
     /\ i.op = "lscid" => i.intf = "keep"
     /\ i.cancel => i.op = "pin"
+    /\ (i.mode = "depth") = (i.d # "")
 
 InitWith(i, sc) ==
     /\ inp = i /\ script = sc
-    /\ pins = i.prior
+    /\ pins = i.prior /\ held = i.pheld
     /\ pc = "start" /\ net = Idle /\ reqs = <<>> /\ swarm = {} /\ bg = {}
     /\ abandoned = FALSE
     /\ result = "" /\ status = "" /\ lastProg = 0 /\ age = 0
+
+\* the same connector and daemon take the next call
+LoadCall(i, sc) ==
+    /\ inp' = i /\ script' = sc
+    /\ pins' = i.prior /\ held' = i.pheld
+    /\ abandoned' = FALSE
+    /\ pc' = "start" /\ net' = Idle /\ reqs' = <<>> /\ swarm' = {} /\ bg' = {}
+    /\ result' = "" /\ status' = "" /\ lastProg' = 0 /\ age' = 0
 
 Free == [free |-> TRUE, s |-> <<>>, swarm |-> {}]
 
@@ -212,10 +229,17 @@ Respond ==
         /\ LET first == Mutating(net.ep) /\ ~\E j \in DOMAIN reqs : Mutating(reqs[j].ep)
                pre   == IF first /\ inp.intf # "keep" THEN [pins EXCEPT !["c1"] = inp.intf] ELSE pins
                o     == Serve(net, b, pre)
+               hpre  == IF first /\ inp.intf # "keep"
+                        THEN [held EXCEPT !["c1"] = IF inp.intf = "recursive" THEN "full" ELSE ""] ELSE held
+               \* a new recursive pin is as deep as the request said; an existing one stays as it is
+               hnew(c) == IF ~HasR(o.pins[c]) THEN ""
+                          ELSE IF HasR(pre[c]) THEN hpre[c]
+                          ELSE IF net.ep = "add" /\ net.depth # "" THEN net.depth ELSE "full"
            IN /\ pins' = o.pins
+              /\ held' = [c \in DOMAIN held |-> hnew(c)]
               /\ net' = o.resp
               /\ reqs' = Append(reqs, [ep |-> net.ep, cid |-> net.cid, typ |-> net.typ, rec |-> net.rec,
-                                       from |-> net.from, unpin |-> IF net.ep = "update" THEN "false" ELSE "",
+                                       from |-> net.from, depth |-> net.depth, prog |-> net.prog, unpin |-> IF net.ep = "update" THEN "false" ELSE "",
                                        beh |-> b, eff |-> o.eff, ans |-> o.ans])
     /\ UNCHANGED <<inp, abandoned, script, pc, swarm, bg, result, status, lastProg, age>>
 
@@ -229,15 +253,15 @@ IsPinned(st, mode) == IF mode = "direct" THEN st = "direct" ELSE st = "recursive
 
 Finish(r, st) ==
     /\ result' = r /\ status' = st /\ pc' = "done" /\ net' = Idle /\ bg' = {}
-    /\ UNCHANGED <<inp, abandoned, script, pins, reqs, swarm, lastProg, age>>
+    /\ UNCHANGED <<inp, abandoned, script, pins, held, reqs, swarm, lastProg, age>>
 
 Send(n, next) ==
     /\ net' = n /\ pc' = next
-    /\ UNCHANGED <<inp, abandoned, script, pins, reqs, swarm, bg, result, status, lastProg, age>>
+    /\ UNCHANGED <<inp, abandoned, script, pins, held, reqs, swarm, bg, result, status, lastProg, age>>
 
 Goto(next) ==
     /\ pc' = next /\ net' = Idle
-    /\ UNCHANGED <<inp, abandoned, script, pins, reqs, swarm, bg, result, status, lastProg, age>>
+    /\ UNCHANGED <<inp, abandoned, script, pins, held, reqs, swarm, bg, result, status, lastProg, age>>
 
 \* The conversation is blocked on a daemon that is silent, repeats itself or
 \* never finishes.  inp.cancel: the caller cancels its context shortly after the
@@ -254,7 +278,7 @@ CallerCancel ==
     /\ pc \notin {"start", "done"} /\ Cancelled
     /\ abandoned' = TRUE
     /\ result' = "err" /\ status' = (IF inp.op = "lscid" THEN "error" ELSE "") /\ pc' = "done" /\ net' = Idle /\ bg' = {}
-    /\ UNCHANGED <<inp, script, pins, reqs, swarm, lastProg, age>>
+    /\ UNCHANGED <<inp, script, pins, held, reqs, swarm, lastProg, age>>
 
 \* Pin and PinLsCid start with PinLsCid(pin); Unpin goes straight to pin/rm
 Start ==
@@ -279,13 +303,13 @@ Spawn ==
     /\ pc = "spawn"
     /\ bg' = 1..Min(inp.norig, Bound)
     /\ pc' = "spawned"
-    /\ UNCHANGED <<inp, abandoned, script, pins, net, reqs, swarm, result, status, lastProg, age>>
+    /\ UNCHANGED <<inp, abandoned, script, pins, held, net, reqs, swarm, result, status, lastProg, age>>
 
 BgConnect(o) ==
     /\ o \in bg /\ pc # "done"
     /\ script.free \/ (pc = "spawned" /\ o \in script.swarm /\ \A q \in bg \cap script.swarm : o <= q)
     /\ swarm' = swarm \cup {o} /\ bg' = bg \ {o}
-    /\ UNCHANGED <<inp, abandoned, script, pins, pc, net, reqs, result, status, lastProg, age>>
+    /\ UNCHANGED <<inp, abandoned, script, pins, held, pc, net, reqs, result, status, lastProg, age>>
 
 \* As coded the goroutines are left alone.  WaitOrigins: a wg.Wait() here - every
 \* swarm/connect has been sent and answered; a daemon that hangs on them never
@@ -316,9 +340,9 @@ RecvUpd ==
 
 SendAdd ==
     /\ pc = "add"
-    /\ net' = Req("add", "c1", "", RecArg(inp.mode), "") /\ pc' = "wAdd"
+    /\ net' = [Req("add", "c1", "", RecArg(inp.mode), "") EXCEPT !.depth = inp.d, !.prog = "true"] /\ pc' = "wAdd"
     /\ lastProg' = 0 /\ age' = 0
-    /\ UNCHANGED <<inp, abandoned, script, pins, reqs, swarm, bg, result, status>>
+    /\ UNCHANGED <<inp, abandoned, script, pins, held, reqs, swarm, bg, result, status>>
 
 \* the daemon is silent (or repeats itself): only the watchdog ticker can move
 Silent == net.kind = "stall" \/ (net.kind = "stream" /\ net.msgs = <<>> /\ net.end \in {"stall", "flat"})
@@ -328,7 +352,7 @@ Tick ==
     /\ pc = "wAdd" /\ net.st = "resp" /\ Silent /\ ~Cancelled
     /\ IF age >= 1 THEN Finish("err", "")
        ELSE /\ age' = age + 1
-            /\ UNCHANGED <<inp, abandoned, script, pins, pc, net, reqs, swarm, bg, result, status, lastProg>>
+            /\ UNCHANGED <<inp, abandoned, script, pins, held, pc, net, reqs, swarm, bg, result, status, lastProg>>
 
 \* progress keeps increasing: the watchdog stays quiet, the pin goes on until the
 \* caller's deadline
@@ -345,7 +369,7 @@ RecvAdd ==
                 /\ IF Head(net.msgs) > lastProg
                    THEN lastProg' = Head(net.msgs) /\ age' = 0
                    ELSE UNCHANGED <<lastProg, age>>
-                /\ UNCHANGED <<inp, abandoned, script, pins, pc, reqs, swarm, bg, result, status>>
+                /\ UNCHANGED <<inp, abandoned, script, pins, held, pc, reqs, swarm, bg, result, status>>
          [] net.kind = "stream" /\ net.msgs = <<>> /\ net.end = "pins" -> Finish("ok", "")
          [] net.kind = "stream" /\ net.msgs = <<>> /\ net.end = "trailer" ->
                 Finish(IF CheckTrailer THEN "err" ELSE "ok", "")  \* clean EOF
@@ -366,7 +390,7 @@ Next ==
 (* Observation record of a finished call                                   *)
 (***************************************************************************)
 Obs == [in  |-> inp,
-        out |-> [res |-> result, status |-> status, pins |-> pins, reqs |-> reqs, swarm |-> swarm,
+        out |-> [res |-> result, status |-> status, pins |-> pins, held |-> held, reqs |-> reqs, swarm |-> swarm,
                  abandoned |-> abandoned]]
 
 (***************************************************************************)
@@ -378,6 +402,8 @@ Rq(R, j) == R.out.reqs[j]
 \* success only if the daemon ends up holding / not holding the CID as asked
 SuccessSound(R) ==
     /\ (R.in.op = "pin" /\ R.out.res = "ok") => Has(R.out.pins.c1, R.in.mode)
+    \* ... to the requested depth: a partial (depth-limited) pin is not a recursive one
+    /\ (R.in.op = "pin" /\ R.out.res = "ok" /\ R.in.mode # "direct") => DepthOk(R.out.held.c1, R.in.d)
     /\ (R.in.op = "unpin" /\ R.out.res = "ok") => R.out.pins.c1 = "none"
     /\ (R.in.op = "lscid" /\ R.out.res = "ok" /\ R.out.status = "recursive") => HasR(R.out.pins.c1)
     /\ (R.in.op = "lscid" /\ R.out.res = "ok" /\ R.out.status = "direct") => HasD(R.out.pins.c1)
@@ -487,6 +513,7 @@ InvSourceKept     == Done => SourceKept(Obs)
 
 TypeOK ==
     /\ pins \in [{"c1", "c2"} -> PinSt]
+    /\ \A c \in {"c1", "c2"} : HasR(pins[c]) = (held[c] # "")
     /\ result \in {"", "ok", "err", "hung", "never"}
     /\ pc \in {"start", "wLs1", "spawn", "spawned", "ls2", "wLs2", "update", "wUpd", "add", "wAdd", "wRm", "done"}
     /\ (pc = "done") = (result # "")
